@@ -139,7 +139,10 @@ fn guarded_line(op: &str, input: &[u8]) -> (String, Result<(), String>) {
     // divergence from the model, not as a property failure)
     if crate::childrun::hangs() >= crate::childrun::MAX_HANGS { return ("NOT-RUN-AFTER-HANGS".into(), Ok(())); }
     match guarded(op, input) {
-        Outcome::Value(v) => (v, Ok(())),
+        Outcome::Value(v) => {
+            let own = !(op.starts_with("dcp") || op.starts_with("crt") || op.starts_with("dcx"));
+            match crate::childrun::alloc_excess(op, input.len(), own) { Some(w) => (v, Err(w)), None => (v, Ok(())) }
+        }
         Outcome::Panic(p) => ("PANIC".into(), Err(format!("{op} panicked: {p}"))),
         Outcome::Abort(a) => ("ABORT".into(), Err(format!("{op} aborted the process ({a})"))),
         Outcome::Hang => ("HANG".into(), Err(format!("{op} did not return"))),
@@ -335,6 +338,7 @@ pub fn run(cfg: &Cfg) {
             one(&mut out, &["dcp", a, &hx(&z)]);
         }
     }
+    for (k, inp, big) in crate::util::ALLOC_NOTES.lock().unwrap().iter() { out.stat(&format!("maxalloc_{k}_{big}_for_input_{inp}")); }
     out.finish();
 }
 
